@@ -67,20 +67,32 @@ pub fn run(params: &[i64], ops: &Rows, mon: &mut Mon) -> Rows {
     r
 }
 
+/// C10, id 210: the model's module tags made observable.  A creation op '0 m v' / '1 m v' / '2 m v' with m = 1 makes a handle of MODULE 1: built
+/// through the published layout with counting clone/drop functions (a std Arc of module 1 is one whose clone/drop this harness counts itself).
+/// Output per op: the result row and [runs of module 1's clone function, runs of its drop function] during the op — the model's event log
+/// projected on module 1 (coq/model/Arc.v calls_of, theorem C10_calls_view).
+pub fn run_calls(_params: &[i64], ops: &Rows, mon: &mut Mon) -> Rows {
+    TAGS_ON.store(true, SeqCst);
+    let r = exec(ops, None, mon);
+    TAGS_ON.store(false, SeqCst);
+    r
+}
+
 use std::sync::atomic::{AtomicBool, AtomicI64, Ordering::SeqCst};
 static FOREIGN_ON: AtomicBool = AtomicBool::new(false);
+static TAGS_ON: AtomicBool = AtomicBool::new(false);
 static F_CLONES: AtomicI64 = AtomicI64::new(0);
 static F_DROPS: AtomicI64 = AtomicI64::new(0);
 #[repr(C)]
 struct Mirror { instance: *const Tok, clone_fn: Option<unsafe extern "C" fn(*const Tok) -> *const Tok>, drop_fn: Option<unsafe extern "C" fn(*const Tok)> }
 unsafe extern "C" fn f_clone(p: *const Tok) -> *const Tok { if !p.is_null() { F_CLONES.fetch_add(1, SeqCst); Arc::increment_strong_count(p); } p }
 unsafe extern "C" fn f_drop(p: *const Tok) { if !p.is_null() { F_DROPS.fetch_add(1, SeqCst); Arc::decrement_strong_count(p); } }
-fn foreign_a(a: CArc<Tok>) -> CArc<Tok> {
-    if !FOREIGN_ON.load(SeqCst) { return a; }
+fn foreign_a(a: CArc<Tok>, m: i64) -> CArc<Tok> {
+    if !(FOREIGN_ON.load(SeqCst) || (TAGS_ON.load(SeqCst) && m == 1)) { return a; }
     unsafe { let mut m: Mirror = std::mem::transmute(a); if !m.instance.is_null() { m.clone_fn = Some(f_clone); m.drop_fn = Some(f_drop); } std::mem::transmute(m) }
 }
-fn foreign_s(a: CArcSome<Tok>) -> CArcSome<Tok> {
-    if !FOREIGN_ON.load(SeqCst) { return a; }
+fn foreign_s(a: CArcSome<Tok>, m: i64) -> CArcSome<Tok> {
+    if !(FOREIGN_ON.load(SeqCst) || (TAGS_ON.load(SeqCst) && m == 1)) { return a; }
     unsafe { let mut m: Mirror = std::mem::transmute(a); m.clone_fn = Some(f_clone); m.drop_fn = Some(f_drop); std::mem::transmute(m) }
 }
 fn nonempty_c(h: &H) -> bool { match h { H::A(a) => a.as_ref().is_some(), H::OA(a) => a.as_ref().is_some(), H::S(_) | H::OS(_) => true, _ => false } }
@@ -147,6 +159,8 @@ pub fn run_threads(params: &[i64], ops: &Rows, mon: &mut Mon) -> Rows {
 fn exec(ops: &Rows, roots: Option<&[Option<Arc<Tok>>]>, mon: &mut Mon) -> Rows {
     let mut out: Rows = Vec::new();
     let mut pool: Vec<H> = Vec::new();
+    let mut tags: Vec<i64> = Vec::new();     // module tag per slot (id 210)
+    let tags_on = TAGS_ON.load(SeqCst) && roots.is_none();
     let _ = take_drops();
     let mut all: Vec<Vec<i64>> = ops.clone();
     let mut k = 0usize;
@@ -164,13 +178,15 @@ fn exec(ops: &Rows, roots: Option<&[Option<Arc<Tok>>]>, mon: &mut Mon) -> Rows {
         let take = |pool: &mut Vec<H>, i: usize| -> H { if i < pool.len() { std::mem::replace(&mut pool[i], H::Dead) } else { H::Dead } };
         let mut res: Option<Option<H>> = None; // None = rejected; Some(None) = ok, no new slot; Some(Some(h)) = new slot
         let (fc0, fd0) = (F_CLONES.load(SeqCst), F_DROPS.load(SeqCst));
+        let src_tag = if matches!(c, 0 | 1 | 2) { op.get(1).copied().unwrap_or(0) } else { op.get(1).and_then(|i| tags.get(*i as usize).copied()).unwrap_or(0) };
+        let src_std = op.get(1).map(|i| *i >= 0 && (*i as usize) < pool.len() && matches!(pool[*i as usize], H::Std(_))).unwrap_or(false);
         let src_nonempty = op.get(1).map(|i| (*i as usize) < pool.len() && *i >= 0 && nonempty_c(&pool[*i as usize])).unwrap_or(false);
         match c {
-            0 => res = Some(Some(H::A(foreign_a(match roots { None => CArc::from(Tok::mk(op[2])), Some(r) => CArc::from(r[k].clone().unwrap()) })))),
-            1 => res = Some(Some(H::S(foreign_s(match roots { None => CArcSome::from(Tok::mk(op[2])), Some(r) => CArcSome::from(r[k].clone().unwrap()) })))),
+            0 => res = Some(Some(H::A(foreign_a(match roots { None => CArc::from(Tok::mk(op[2])), Some(r) => CArc::from(r[k].clone().unwrap()) }, op[1])))),
+            1 => res = Some(Some(H::S(foreign_s(match roots { None => CArcSome::from(Tok::mk(op[2])), Some(r) => CArcSome::from(r[k].clone().unwrap()) }, op[1])))),
             2 => res = Some(Some(H::Std(match roots { None => Arc::new(Tok::mk(op[2])), Some(r) => r[k].clone().unwrap() }))),
-            3 => { let i = slot(op[1]); match take(&mut pool, i) { H::Std(a) => res = Some(Some(H::A(foreign_a(if k % 2 == 0 { CArc::from(a) } else { CArc::from(Some(a)) })))), o => { if i < pool.len() { pool[i] = o; } } } }
-            4 => { let i = slot(op[1]); match take(&mut pool, i) { H::Std(a) => res = Some(Some(H::S(foreign_s(CArcSome::from(a))))), o => { if i < pool.len() { pool[i] = o; } } } }
+            3 => { let i = slot(op[1]); match take(&mut pool, i) { H::Std(a) => res = Some(Some(H::A(foreign_a(if k % 2 == 0 { CArc::from(a) } else { CArc::from(Some(a)) }, src_tag)))), o => { if i < pool.len() { pool[i] = o; } } } }
+            4 => { let i = slot(op[1]); match take(&mut pool, i) { H::Std(a) => res = Some(Some(H::S(foreign_s(CArcSome::from(a), src_tag)))), o => { if i < pool.len() { pool[i] = o; } } } }
             5 => res = Some(Some(H::A(if k % 2 == 0 { CArc::from(None::<Arc<Tok>>) } else { CArc::default() }))),
             6 => { let i = slot(op[1]); if i < pool.len() { match &pool[i] {
                     H::A(a) => res = Some(Some(H::A(a.clone()))),
@@ -204,6 +220,7 @@ fn exec(ops: &Rows, roots: Option<&[Option<Arc<Tok>>]>, mon: &mut Mon) -> Rows {
             12 => { let i = slot(op[1]); match take(&mut pool, i) { H::Dead => {}, h => { drop(h); res = Some(None); } } }
             _ => {}
         }
+        if tags_on && src_std && src_tag == 1 && res.is_some() { if c == 6 { F_CLONES.fetch_add(1, SeqCst); } if c == 12 { F_DROPS.fetch_add(1, SeqCst); } }
         if roots.is_none() && FOREIGN_ON.load(SeqCst) {
             let (dc, dd) = (F_CLONES.load(SeqCst) - fc0, F_DROPS.load(SeqCst) - fd0);
             let (wc, wd) = match c { 6 if src_nonempty => (1, 0), 12 if src_nonempty => (0, 1), _ => (0, 0) };
@@ -212,9 +229,10 @@ fn exec(ops: &Rows, roots: Option<&[Option<Arc<Tok>>]>, mon: &mut Mon) -> Rows {
         let row = match res {
             None => vec![c, 0, -1],
             Some(None) => vec![c, 1, -1],
-            Some(Some(h)) => { pool.push(h); vec![c, 1, pool.len() as i64 - 1] }
+            Some(Some(h)) => { pool.push(h); tags.push(if c == 5 { 0 } else { src_tag }); vec![c, 1, pool.len() as i64 - 1] }
         };
         out.push(row);
+        if tags_on { let _ = take_drops(); out.push(vec![F_CLONES.load(SeqCst) - fc0, F_DROPS.load(SeqCst) - fd0]); k += 1; continue; }
         match roots {
             None => { out.push(take_drops()); out.push(obs(&pool, mon, k)); }
             Some(r) => { let ds = take_drops(); if !ds.is_empty() { mon.fail(format!("op{} destroyed payloads {:?} although their roots are alive", k, ds)); } out.push(obs_kinds(&pool, r, mon, k)); }
